@@ -218,7 +218,8 @@ def rs_module(name, p, nm=None, macro="ascent", attrs=(), **kw):
         else:
             loads.append(f"         {r} => {{ let v: Vec<{ty}> = parse_rows(rows)?; if !append {{ self.p.{f} = Default::default(); }} for x in v {{ self.p.{f}.push(x); }} }},")
             dumps.append(f"dump_rel({r}, self.p.{f}.iter().map(|x| x.render()).collect())")
-    rt = ("ascent::internal::verif::arm_deadline(k); let r = self.p.run_timeout(std::time::Duration::from_secs(1)); "
+    rt = ("ascent::internal::verif::arm_deadline(k); let p = &mut self.p; "
+          "let r = match &self.pool { Some(pl) => pl.install(|| p.run_timeout(std::time::Duration::from_secs(1))), None => p.run_timeout(std::time::Duration::from_secs(1)) }; "
           "ascent::internal::verif::disarm(); Some(r)") if timeout else "let _ = k; None"
     return f"""#[allow(unused, non_snake_case, clippy::all)]
 pub mod {name} {{
